@@ -24,6 +24,11 @@ def ref_eval(spec, ctx=None):
         return payload
     if kind == "ctx":
         return ["ctx", payload, myctx.get("k", "none")]
+    if kind == "cfail":
+        k = myctx.get("k", "none")
+        if k == 1:
+            raise Raised([f"strict{payload}"])
+        return ["ok", payload, k]
     if kind == "raise":
         raise Raised([str(payload)])
     if kind == "list":
